@@ -51,7 +51,7 @@ def check_string(P, s, op="?"):
     for ver in T.VERSIONS:
         P.evaluations += 1
         want = T.classify(ver, s)
-        ok, r = obs.call(L.CLS[ver], s)
+        ok, r = obs.call(obs.construct, L.CLS[ver], s)
         P.ev("acceptance")
         P.stratum("v%s:%s" % (ver, want))
         case = {"ver": ver, "string": s, "op": op}
